@@ -5,7 +5,7 @@ EXTENDS Silences, Json
 CONSTANTS MaxTime, RemoteRetention, DerivedUpd(_), Pick(_), KnownGaps,
           LS,        \* label sets queried (alerts)
           MSV, MSI,  \* valid / invalid matcher sets used by Set
-          Cmts, StartOffs, EndOffs, PoolIds, Ops
+          Cmts, StartOffs, EndOffs, PoolIds, Ops, Vias
 PickAll(S) == S
 DerivedBoth(t) == {t - 1, t}
 DerivedNewer(t) == {t}
@@ -30,7 +30,7 @@ DerivedOK == {d \in Derived : d.upd >= 0 /\ d.end >= d.start /\ d.upd # st[d.id]
 Batches == {{a} : a \in Pool \cup DerivedOK} \cup {{a, b} : a \in Pool, b \in DerivedOK}
 
 Times == 0 .. MaxTime
-Starts(t) == {Unset} \cup ({t + o - 1 : o \in StartOffs} \cap Times)   \* offsets are shifted by 1 (cfg files have no negative numbers)
+Starts(t) == {Unset} \cup ({t + o - 3 : o \in StartOffs} \cap Times)   \* offsets are shifted by 3 (cfg files have no negative numbers)
 Ends(t)   == {t + o - 1 : o \in EndOffs} \cap Times
 
 \* No two writes to one id at one instant (a nanosecond clock never does that;
@@ -38,8 +38,11 @@ Ends(t)   == {t + o - 1 : o \in EndOffs} \cap Times
 Quiet(id) == id \notin DOMAIN st \/ st[id].upd # now
 
 SetOp == \E id \in Pick({""} \cup DOMAIN st \cup {"nosuch"}), ms \in Pick(MSV \cup MSI),
-            s \in Pick(Starts(now)), e \in Pick(Ends(now)), c \in Pick(Cmts) :
-           (IF id \in DOMAIN st THEN st[id].upd # now ELSE TRUE) /\ Set(id, ms, s, e, c)
+            s \in Pick(Starts(now)), e \in Pick(Ends(now)), c \in Pick(Cmts), via \in Pick(Vias) :
+           /\ (IF id \in DOMAIN st THEN st[id].upd # now ELSE TRUE)
+           \* the API carries one matcher set, an explicit start, and ids in UUID form
+           /\ (via = "api" => (Len(MSets[ms]) = 1 /\ s # Unset /\ id \notin {"r1", "r2"}))
+           /\ SetV(id, ms, s, e, c, via)
 ExpireOp == \E id \in Pick(DOMAIN st \cup {"nosuch"}) :
            (IF id \in DOMAIN st THEN st[id].upd # now ELSE TRUE) /\ Expire(id)
 MergeOp == \E B \in Pick(Batches) : Merge(B)
